@@ -28,9 +28,11 @@ LUAEMU = os.path.join(common.VERIF, "tools", "ccheck", "luaemu")
 RUNDIR = os.path.join(common.REPO, "regression", "run")
 PYINC = sysconfig.get_paths()["include"]
 
-CFLAGS = ["-std=c99", "-fsyntax-only", "-Werror=implicit-function-declaration", "-w", "-Werror=implicit-function-declaration"]
+# NB: no -w: it also silences diagnostics promoted with -Werror=...
+CFLAGS = ["-std=c99", "-fsyntax-only", "-Werror=implicit-function-declaration", "-Werror=implicit-int"]
 CXXFLAGS = ["-std=c++11", "-fsyntax-only", "-w"]
-FFLAGS = ["-cpp", "-ffree-form", "-fsyntax-only", "-w", "-ffree-line-length-none"]
+# free-form limit of 132 columns stays in force (gfortran: -Werror=line-truncation by default); no -w, no -ffree-line-length-none
+FFLAGS = ["-cpp", "-ffree-form", "-fsyntax-only", "-Werror=line-truncation"]
 
 
 def corpus_incdirs():
